@@ -212,6 +212,9 @@ func (s *skel) stmt(st ast.Stmt) []string {
 		switch y := n.(type) {
 		case *ast.SwitchStmt:
 			body = y.Body
+			if y.Init != nil {
+				out = append(out, s.stmt(y.Init)...)
+			}
 			if y.Tag != nil {
 				head = "switch " + oneLine(src(y.Tag)) + " {"
 			}
